@@ -1,6 +1,9 @@
 use vtv::report::Tier;
 use vtv::shard::{run_monitor, Args};
 
+#[global_allocator]
+static ALLOC: vtv::alloc::Counting = vtv::alloc::Counting;
+
 fn main() {
 	let argv: Vec<String> = std::env::args().collect();
 	if argv.len() < 2 {
